@@ -98,7 +98,8 @@ unsigned int get_rex_prefix(struct instr *all_instr, struct operand *m,
   // register r or m is 64 bits wide
   // (or the memory operand is declared qword: its address registers may be
   // 32-bit or absent)
-  if ((rm & reg64) || (r->reg & reg64) || all_instr->keyword.is_qword)
+  if ((rm & reg64) || (r->reg & reg64) ||
+      (all_instr->keyword.is_qword && m->type == 'm'))
     rex_prefix |= rex_w;
   if (rex_prefix & REX_W_RXB)
     return rex_ | rex_prefix;
